@@ -132,6 +132,9 @@ type World struct {
 	Info map[*interp.Cell]*TInfo
 	// Notes collected by summaries (e.g. precondition failures with their reason).
 	ErrNotes []string
+	curOperands []interp.PtrV
+	// SpecTracked counts spec-mode results that would be tracked (no back edges are modelled for them)
+	SpecTracked int
 	// Finite is the finiteness assumption for 0·t → 0 (set by drivers; A3 checks it separately).
 	seq int
 }
